@@ -118,6 +118,10 @@ def make_spy(LimitedStream):
         def readall(self):
             return self._log("a", None, lambda: LimitedStream.readall(self))
 
+        def exhaust(self):
+            # draining helper, not one of the read operations of the property: logged under its own tag
+            return self._log("x", None, lambda: LimitedStream.exhaust(self))
+
     return Spy
 
 
@@ -184,6 +188,7 @@ def run_ops(obj, ops, apply):
 
 
 ALLOWED_EXC = {"EXC:ClientDisconnected", "EXC:RequestEntityTooLarge"}
+TRUNCATED_MAX = "read() under a maximum returned the first max_content_length bytes of a longer body without RequestEntityTooLarge (silent truncation; only a further read raises)"
 
 
 def common_oracle(case, data, u, spy, outs, kind):
@@ -203,15 +208,17 @@ def common_oracle(case, data, u, spy, outs, kind):
         calls = u.calls[ent["k0"] : ent["k1"]]
         starved = [c for c in calls if c[1] > 0 and (c[2] == "raise" or c[2] == 0)]
         raised = [c for c in calls if c[2] == "raise"]
-        positive = ent["op"] == "a" or ent["size"] > 0
+        positive = ent["op"] in ("a", "x") or ent["size"] > 0
         if positive and ((starved and not is_max) or raised) and res != "EXC:ClientDisconnected":
             return f"body ended / failed before the declared length but the read gave {fmt_res(res)[:40]} instead of ClientDisconnected"
-        if positive and is_max and ent["c0"] >= limit and res != "EXC:RequestEntityTooLarge":
+        if positive and ent["op"] != "x" and is_max and ent["c0"] >= limit and res != "EXC:RequestEntityTooLarge":
             return f"read past the maximum gave {fmt_res(res)[:40]} instead of RequestEntityTooLarge"
         if ent["op"] == "a" and isinstance(res, bytes) and not is_max and ent["c0"] + len(res) != limit and ent["c0"] < limit:
             return "read() returned before the declared length without an error (silent truncation)"
         if isinstance(res, str) and res.startswith("EXC:") and res not in ALLOWED_EXC:
             return f"unrelated exception {res[4:]} from LimitedStream"
+        if ent["op"] == "a" and isinstance(res, bytes) and is_max and ent["c0"] < limit and ent["c0"] + len(res) == limit and len(data) > limit:
+            return TRUNCATED_MAX
     # what the application sees
     got = b""
     for tok, o in zip(case["ops"], outs):
@@ -284,6 +291,9 @@ class ReadsStream(Stream):
             if got != data[: u.off]:
                 return "bytes were taken from the underlying stream but not handed to the caller"
         return None
+
+    def finding_key(self, case, what):
+        return "F09b" if what == TRUNCATED_MAX else None
 
     def nontrivial(self, case, real_out):
         return len(case["ops"]) > 1 and case["limit"] > 0
@@ -486,6 +496,9 @@ class WrappedStream(Stream):
             return "endless read: the underlying stream was called more than %d times" % CALL_CAP
         return common_oracle(case, data, u, s, outs, case["wrap"])
 
+    def finding_key(self, case, what):
+        return "F09b" if what == TRUNCATED_MAX else None
+
     def nontrivial(self, case, real_out):
         return case["limit"] > 0 and real_out.count(";") >= 1
 
@@ -628,6 +641,7 @@ CHECK = Check(
         "io.BufferedReader and io.TextIOWrapper are not modelled: they are treated as arbitrary callers of LimitedStream.readinto/readall (the theorems hold for every call sequence); stream wrapped replays the call sequence they actually issue and the property oracle checks what they return",
         "zero-size reads are outside the property's quantifier (read(0) on an unexhausted declared-length stream raises ClientDisconnected; modelled as coded, excluded from the short-body oracle)",
         "limit and max_content_length are natural numbers (get_content_length never returns a negative value)",
+        "known finding F09b: under a maximum (is_max=True) an unbounded read() of a body longer than the maximum returns the first max bytes without RequestEntityTooLarge; only a further read raises. The full-strength negation and the partial form (every read *past* the maximum raises; read() lands exactly on the limit) are proved",
     ],
     trusted_extra=["CPython io module glue (RawIOBase, BufferedReader, TextIOWrapper): exercised by the streams, not verified"],
     quick_budget=2500,
